@@ -42,7 +42,8 @@ class FilestoreResponseStatusCode(enum.IntEnum):
 
     DELETE_SUCCESS = FilestoreActionCode.DELETE_FILE_SNN << 4 | SUCCESS
     DELETE_FILE_DOES_NOT_EXIST = FilestoreActionCode.DELETE_FILE_SNN << 4 | 0b0001
-    DELETE_NOT_ALLOWED = FilestoreActionCode.DELETE_FILE_SNN << 4 | NOT_PERFORMED
+    DELETE_NOT_ALLOWED = FilestoreActionCode.DELETE_FILE_SNN << 4 | 0b0010
+    DELETE_NOT_PERFORMED = FilestoreActionCode.DELETE_FILE_SNN << 4 | NOT_PERFORMED
 
     RENAME_SUCCESS = FilestoreActionCode.RENAME_FILE_SNP << 4 | SUCCESS
     RENAME_OLD_FILE_DOES_NOT_EXIST = FilestoreActionCode.RENAME_FILE_SNP << 4 | 0b0001
